@@ -1,3 +1,4 @@
+import DcmVerif.Props.Source_stackadd
 import DcmVerif.Props.Source_stack
 import DcmVerif.Props.C12_add
 import DcmVerif.Proofs.Stack
